@@ -294,6 +294,15 @@ def nat_sweep(seed, count, only=None):
                 d, v = T.voigt_decompose(out[i])
                 if abs(np.trace(d) / 9 - Kc) > 1e-8 * sc:
                     msgs.append("bulk modulus depends on the texture")
+            # linear in the stiffness: another unit (Pa instead of GPa, 1e-12 GPa) scales the average by the same factor
+            if it % 3 == 0:
+                for unit in (1e9, 1e-12):
+                    st_u = M.StiffnessTensors()
+                    st_u.olivine, st_u.enstatite = C64[0] * unit, C64[1] * unit
+                    out_u = M.voigt_averages(mins, [core.MineralPhase(p) for p in asm], list(phis), st_u)
+                    if not np.allclose(out_u, unit * ref, rtol=1e-9, atol=1e-9 * unit * sc):
+                        msgs.append(f"not linear in the stiffness: tensors scaled by {unit:g} give an average off by {np.abs(out_u / unit - ref).max():.3e}")
+                        break
             # listing order of minerals
             out3 = M.voigt_averages(mins[::-1], [core.MineralPhase(p) for p in asm], list(phis), st)
             if not np.allclose(out3, out, rtol=1e-12, atol=1e-12 * sc):
